@@ -34,6 +34,23 @@ Theorem c13_zero_forces (C O : IPS) (Snap : Type) (Xs : Snap -> C -> O) :
 Proof. intros Ha. exact (normal_eqs_zero C O Snap Xs Ha). Qed.
 Print Assumptions c13_zero_forces.
 
+(** The undisplaced supercell in a dataset (design rows all zero) is irrelevant wherever it stands and whatever residual forces it
+    carries ... *)
+Theorem c13_undisplaced_snapshot_irrelevant (C O : IPS) (Snap : Type) (Xs : Snap -> C -> O) s0 ds1 ds2 ys c :
+  (forall d, Xs s0 d = vzero) ->
+  (normal_eqs C O Snap Xs (ds1 ++ s0 :: ds2) ys c <-> normal_eqs C O Snap Xs (ds1 ++ ds2) ys c).
+Proof. exact (normal_eqs_null_snapshot C O Snap Xs s0 ds1 ds2 ys c). Qed.
+Print Assumptions c13_undisplaced_snapshot_irrelevant.
+
+(** ... whereas a snapshot with zero FORCES and non-zero displacements is an equation like any other: dropping it changes the fit
+    (one coefficient, snapshots (x, y) = (1, 1), (1, 0): 1/2 with both, 1 without the second). *)
+Theorem c13_zero_force_snapshot_matters :
+  normal_eqs IPSInst.R_IPS IPSInst.R_IPS (R * R) zx [(1, 1); (1, 0)]%R zy (/ 2)%R /\
+  normal_eqs IPSInst.R_IPS IPSInst.R_IPS (R * R) zx [(1, 1)]%R zy 1%R /\
+  ~ normal_eqs IPSInst.R_IPS IPSInst.R_IPS (R * R) zx [(1, 1); (1, 0)]%R zy 1%R.
+Proof. exact zero_force_snapshot_matters. Qed.
+Print Assumptions c13_zero_force_snapshot_matters.
+
 (** With an injective design the minimiser is unique, so "fit" is a function and the statements above
     are statements about it. *)
 Theorem c13_unique (C O : IPS) (X : C -> O) :
